@@ -731,9 +731,14 @@ def acc_case(draw):
     g = draw(flowgrid())
     n = g["shape"][0] * g["shape"][1]
     g["field"] = draw(st.one_of(st.none(), farr(n, maxbig=False)))
-    g["nprint"] = draw(st.sampled_from([0, 0, 1, 100, -1]))
-    g["cap"] = draw(st.sampled_from([-1, -1, 0, 1, 3, -5, 1000]))
-    g["nodata"] = draw(st.sampled_from([0., -9999., float("nan")]))
+    g["nprint"] = draw(st.sampled_from([0, 0, 1, 100, -1, 10**18, -2**63]))
+    g["cap"] = draw(st.sampled_from([-1, -1, 0, 1, 3, -5, 1000, 2**62,
+                                     -2**63 + 1]))
+    # no-data markers of every magnitude (they are printed and stored)
+    g["nodata"] = draw(st.sampled_from([
+        0., -9999., float("nan"), -1.7976931348623157e308,
+        1.7976931348623157e308, -3.4028234663852886e38, 1e300, -1e150,
+        float("inf"), float("-inf"), 5e-324]))
     g["mismatch"] = draw(st.integers(0, 9)) == 0
     g["fdtype"] = draw(st.sampled_from(["int64", "int32", "float64"]))
     return g
@@ -753,7 +758,13 @@ def fieldgrid(c):
 
 @entry("grid.accumulate", acc_case())
 def _(c):
-    accumulate(mkgrid(c, np.dtype(c["fdtype"]).type), fieldgrid(c),
+    g = mkgrid(c, np.dtype(c["fdtype"]).type)
+    if c["fdtype"] == "float64":
+        # a flow direction raster read as floats carries its own marker
+        nr, nc = c["shape"]
+        g = Grid("fd", nc, nr, dtype=np.float64, nodata=c["nodata"])
+        g.data = np.array(c["fd"], dtype=np.float64).reshape(nr, nc)
+    accumulate(g, fieldgrid(c),
                nprint=c["nprint"], max_accumulated_cells=c["cap"])
 
 
@@ -1120,4 +1131,43 @@ def adsweep_oracle(case):
 
 SUBS.append(Sub("C05.ad-statistic-sweep", adsweep_oracle,
                 enumerate=adsweep_enum, shards=(16, 16), budget=(600, 3600),
+                bucket=lambda msg: bucket(msg.split("]: ", 1)[-1])))
+
+
+# ------------------------------------------------ sweep of the right border
+# Whether a point next to the right / top border gets a column one past the
+# grid depends on how ncols * cellsize rounds: every width up to 40 (120)
+# columns for cell sizes that are not powers of two, with positive, zero and
+# negative corners (seeded change C05-c was detected for some seeds only).
+def border_enum(tier):
+    ncmax = 40 if tier == "quick" else 120
+    for csz in (0.05, 0.1, 1. / 3, 0.7, 0.125, 0.008333333333333333):
+        for xll in (0., -0.25, 0.3, 112.45):
+            for nc in range(1, ncmax + 1):
+                yield {"shape": [1 + nc % 2, nc], "csz": csz, "xll": xll}
+
+
+def border_call(c):
+    nr, nc = c["shape"]
+    c = dict(c, fd=[1] * (nr * nc), pts=[])
+    g = geogrid(c)
+    pts = edge_points(c)
+    extra = [[round(c["xll"] + nc * c["csz"], 10), 0.5 * c["csz"]],
+             [round(c["xll"] + nc * c["csz"], 10), 0.0]]
+    pts = np.vstack([pts, np.array(extra)])
+    g.coord2cell(pts.copy())
+    g.slice(pts.copy())
+
+
+def border_oracle(case):
+    res = forked(lambda: seeded(border_call, case))
+    if res == "TIMEOUT":
+        return {"nt": False, "labels": ["timeout:inconclusive"]}
+    if res is not None:
+        raise Violation(f"sanitizer/crash [{bucket(res)}]: {res}")
+    return {"nt": True, "labels": [f"cellsize:{case['csz']:.4g}"]}
+
+
+SUBS.append(Sub("C05.grid-right-border-sweep", border_oracle,
+                enumerate=border_enum, shards=(16, 16), budget=(600, 3600),
                 bucket=lambda msg: bucket(msg.split("]: ", 1)[-1])))
